@@ -84,12 +84,12 @@ def sweep(ctx, n):
                                      "observer_local": local[k].tolist(), "B": B[k].tolist(), "H": H[k].tolist(), "J": J[k].tolist()}})
         if cls not in MAGNETS and np.any(J != 0):
             fails.append({"key": f"j-nonzero:{cls}", "desc": "J/M not identically zero for a current/dipole/triangle", "replay": {"class": cls}})
-        if cls in ("Tetrahedron", "TriangularMesh") and obs is local:
-            ip = interior_points(cls, src, nps, 4)
+        if cls in ("Tetrahedron", "TriangularMesh", "CylinderSegment") and obs is local:
+            ip = interior_points(cls, src, nps, 8 if cls == "CylinderSegment" else 4)
             Jin = magpy.getJ(src, ip)
             if not np.allclose(Jin, src.polarization):
                 fails.append({"key": f"j-indicator:{cls}", "desc": "J is not the polarization at a point inside the body", "replay": {"class": cls, "points": ip.tolist(), "J": Jin.tolist(),
-                              "vertices": np.asarray(src.vertices).tolist()}})
+                              "geometry": np.asarray(src.vertices if getattr(src, "vertices", None) is not None else src.dimension).tolist()}})
         # J is pol (observer frame) strictly inside, 0 strictly outside — classes with an elementary inside test, local frame
         if cls in ("Cuboid", "Cylinder", "Sphere") and obs is local:
             if cls == "Cuboid":
